@@ -130,8 +130,11 @@ def _submit_validation(ck, pool, cases, obs, mode, common, jobs):
         jobs.append((mode, common, cc, oo, pool.submit(_tlc_trace, ck, oo, mode, n, workers)))
 
 
+QUERY_KINDS = ("has", "get", "unit", "define", "keys", "pfx", "samedim", "json", "id", "lutcopy", "dcopy", "pickle", "baseq", "latex")
+
+
 def _edits_str(c):
-    return [f"{e['k']} {e['sym']} lg={e['lg']} dim={e['d']}" for e in c.get("edits", [])]
+    return [f"query {e['k']} {e['sym']}" if e["k"] in QUERY_KINDS else f"{e['k']} {e['sym']} lg={e['lg']} dim={e['d']}" for e in c.get("edits", [])]
 
 
 def _draw_verdicts(ck, jobs):
@@ -159,6 +162,7 @@ def _draw_verdicts(ck, jobs):
             if o.get("hist"):
                 key["edits"] = _edits_str(c)
                 key["phase"] = o["ph"]
+                key["registry"] = c.get("origin", "long")
             ck.violation(key, _detail(c, o, what, r["at"]), case={"mode": mode, "case": c, "common": common})
             if os.environ.get("C05_DEBUG"):
                 with open(os.environ["C05_DEBUG"], "a") as f:
@@ -233,6 +237,8 @@ def _detail(c, o, what, at):
     if o.get("hist"):
         d["edits"] = _edits_str(c)
         d["phase"] = o["ph"]
+        d["registry"] = c.get("origin", "long")
+        d["hash_classes"] = o["hc"]
         d["table_rows_read_back"] = {"atoms": o["atoms"], "lg": o["alg"]}
     return d
 
@@ -250,7 +256,7 @@ def _mc(ck, mode, consts, env=None, label=""):
     res = ck.tlc("MC_C05", name, env=env, workers=NCPU, label=label, coverage=False, timeout=3000)  # -coverage makes TLC run out of memory on the recursive operators
     cases = res.by_tag("CASE")
     # several workers print concurrently: fix the order
-    cases.sort(key=lambda r: json.dumps([r["law"], r["lv"], r["p"], r["q"], r.get("edits", [])], sort_keys=True))
+    cases.sort(key=lambda r: json.dumps([r["law"], r["lv"], r["p"], r["q"], r.get("edits", []), r.get("origin", "")], sort_keys=True))
     for r in cases:
         _PAIRS.setdefault(r["law"], r["pairs"])
     return res, cases
@@ -296,8 +302,8 @@ def _tab_cases(ck, seed):
     leaves = kept
     tabpath = ck.write_json("tab.json", [{"dc": l["dc"], "co": bool(l.get("co", False))} for l in leaves])
     consts = ck.q(
-        {"Seed": seed, "PairN": 5, "TripleN": 3, "PowN": 3, "PowMulN": 3, "SimpN": 3, "RuleN": 4, "HistN": 0, "CoefN": 2, "EqN": 0},
-        {"Seed": seed, "PairN": 0, "TripleN": 60, "PowN": 40, "PowMulN": 60, "SimpN": 40, "RuleN": 40, "HistN": 0, "CoefN": 30, "EqN": 0},
+        {"Seed": seed, "PairN": 5, "TripleN": 3, "PowN": 3, "PowMulN": 3, "SimpN": 3, "RuleN": 4, "HistN": 0, "QHistN": 0, "CoefN": 2, "EqN": 0},
+        {"Seed": seed, "PairN": 0, "TripleN": 60, "PowN": 40, "PowMulN": 60, "SimpN": 40, "RuleN": 40, "HistN": 0, "QHistN": 0, "CoefN": 30, "EqN": 0},
     )
     res, tcases = _mc(ck, "TAB", consts, env={"TAB": tabpath}, label=f"TAB instance over {len(leaves)} table leaves {consts}: tuple enumeration")
     if len(tcases) < 500:
@@ -312,6 +318,7 @@ def run(ck):
         "MR pass: 18 model atoms with scales 2**k (k integer), four real registries (two in the same state, one edited by the histories); scales well separated, so math.isclose in Unit.__eq__ never decides",
         "exponents: 22 values for p (int, Fraction, sympy Rational, float, two-decimal float), 8 for q; at most one two-decimal exponent per case (32-bit integers in TLC)",
         "registry histories (law 'state'): one or two edits (modify / add over / remove+add, also with another dimension, also back to the original row) of 8 offset-free symbols of one long-lived registry object; the same 17-instruction program runs in every phase on terms re-built from their strings; only re-built terms are compared (what a unit created before an edit keeps is C12's statement)",
+        "registry histories with read-only queries (membership, item access, construction of a prefixed unit, refused define_unit, keys/json/id/copies/pickle; prefixed names cold and warm, atoms, unknown names) run on a registry made for the history (UnitRegistry() + model table, or a copy of registry 1's table); phases are compared as 'the same registry state' when only queries lie between them, or when the history has no query and the edits were undone; edits undone after a query derived a prefixed row are not compared (C12 known finding lutrow: the derived row stays in the table)",
         "TAB pass: float scales never enter TLC; the harness measures relative deviations against 40-digit references (unit 1e-16) and TLC bounds them (one operation 2e-14 + 4e-16 x |ln scale| for powers, law 1e-11, 'different' 4e-9)",
         "C05_Sync (expression denotes (scale, dimension)) is evaluated only when all leaves of the case live in one registry and have positive scale",
         "raising operations (offset and logarithmic guards) are outside the laws: a law instance is evaluated when both sides returned",
@@ -345,8 +352,8 @@ def run(ck):
         f_apalache = pool.submit(_apalache, ck) if ck.tier == "thorough" else None
         f_tab = pool.submit(_tab_cases, ck, seed)
         consts = ck.q(
-            {"Seed": seed, "PairN": 12, "TripleN": 14, "PowN": 16, "PowMulN": 16, "SimpN": 10, "RuleN": 10, "HistN": 8, "CoefN": 6, "EqN": 12},
-            {"Seed": seed, "PairN": 0, "TripleN": 0, "PowN": 0, "PowMulN": 0, "SimpN": 400, "RuleN": 0, "HistN": 120, "CoefN": 300, "EqN": 0},
+            {"Seed": seed, "PairN": 12, "TripleN": 14, "PowN": 16, "PowMulN": 16, "SimpN": 10, "RuleN": 10, "HistN": 8, "QHistN": 1, "CoefN": 6, "EqN": 12},
+            {"Seed": seed, "PairN": 0, "TripleN": 0, "PowN": 0, "PowMulN": 0, "SimpN": 400, "RuleN": 0, "HistN": 120, "QHistN": 4, "CoefN": 300, "EqN": 0},
         )
         res, cases = _mc(ck, "MR", consts, label=f"MR instance {consts}: model run + ModelHolds + export (cases and registry histories)")
         mr = res.by_tag("MR")
@@ -358,19 +365,33 @@ def run(ck):
         ck.cov["model_level_failures"] = len([c for c in cases if c["modelfails"]])
         common = {"mode": "MR", "mr": mr[0]}
         ck.sample({"mr_case": {k: cases[len(cases) // 2][k] for k in ("law", "lv", "p", "q")}})
-        ck.sample({"registry_history": {k: hist[len(hist) // 2][k] for k in ("lv", "p", "edits")}})
+        ck.sample({"registry_history": {k: hist[len(hist) // 2][k] for k in ("lv", "p", "edits", "origin")}})
+        qhist = [c for c in hist if c.get("origin") != "long"]  # (every one of them contains a query)
+        if len(qhist) < 20:
+            raise MachineryFailure("MR instance: registry histories with read-only queries missing")
+        ck.sample({"registry_history_with_queries": {k: qhist[len(qhist) // 2][k] for k in ("lv", "p", "edits", "origin")}})
         # histories first (they are the long poles of the replay), then the single-state cases
         plain = [c for c in cases if c["law"] != "state"]
         np_ = max(2, NCPU // 2) if ck.tier == "quick" else NCPU
-        f_hist = pool.submit(_pmap, ck, "impl_c05", "observe", hist, nproc=np_, chunk_timeout=ck.q(900, 10800), common=common)
+        # (the histories with queries run in worker processes of their own: each has its own registry object, the
+        #  edit-only histories share one long-lived registry per process and keep its memo layers warm)
+        lhist = [c for c in hist if c.get("origin") == "long"]
+        f_hist = pool.submit(_pmap, ck, "impl_c05", "observe", lhist, nproc=np_, chunk_timeout=ck.q(900, 10800), common=common)
+        f_qhist = pool.submit(_pmap, ck, "impl_c05", "observe", qhist, nproc=max(1, np_ // 2), chunk_timeout=ck.q(900, 10800), common=common)
         f_plain = pool.submit(_pmap, ck, "impl_c05", "observe", plain, nproc=np_, chunk_timeout=ck.q(900, 10800), common=common)
-        hc, ho = _flatten(hist, f_hist.result())
+        hc, ho = _flatten(lhist, f_hist.result())
         _submit_validation(ck, pool, hc, ho, "MR", common, jobs)
+        qc, qo = _flatten(qhist, f_qhist.result())
+        _submit_validation(ck, pool, qc, qo, "MR", common, jobs)
+        ho = ho + qo
         obs = f_plain.result()
         _submit_validation(ck, pool, plain, obs, "MR", common, jobs)
         ck.cov["mr_cases_by_law"] = _bylaw(cases)
         ck.cov["registry_histories"] = {"histories": len(hist), "phases": len(ho), "with_two_edits": sum(1 for c in hist if len(c["edits"]) == 2),
-                                        "back_to_an_earlier_state": sum(1 for c in hist if _returns(c))}
+                                        "back_to_an_earlier_state": sum(1 for c in hist if _returns(c)),
+                                        "with_read_only_queries": len(qhist),
+                                        "query_kinds": sorted({e["k"] + " " + e["sym"] for c in qhist for e in c["edits"] if e["k"] in QUERY_KINDS}),
+                                        "by_registry_origin": {k: sum(1 for c in hist if c.get("origin") == k) for k in ("long", "fresh", "lutcopy")}}
         n_eval = len(plain) + len(ho)
 
         leaves, tcases, tconsts, uncovered, tobs = f_tab.result()
@@ -405,6 +426,8 @@ def _returns(c):
     tab = {}
     seen = [dict(tab)]
     for e in c["edits"]:
+        if e["k"] in QUERY_KINDS:
+            continue
         tab[e["sym"]] = (e["lg"], e["d"] if e["k"] != "modify" else tab.get(e["sym"], (None, e["sym"]))[1])
         seen.append(dict(tab))
     base = {"la": 0, "lb": 10, "lc": -3, "ta": 0, "tb": 6, "ma": 0, "mb": -5, "nq": -2, "fo": 3}
